@@ -5,6 +5,7 @@ from spec import gsm as spec
 
 ID = 'C11'
 TARGETS = ['SmppVerif.Props.C11']
+THOROUGH_ROUNDS = 2
 RULE = ('all pairs of basic septets behind 0..7 padding septets (all 8 bit alignments), every length 0..64 over '
         'class representatives, extension characters at every offset 0..16, random texts to 200 characters '
         'in 3 modes, random octet strings and packed encodings (decode direction, 3 modes), texts encoded again after they '
